@@ -73,7 +73,8 @@ Inductive result :=
 | ROk
 | RCred (c : cred)
 | RErrFormat          (* config.ErrInvalidConfigFormat *)
-| RErrBadCred.        (* credentials.ErrBadCredentialFormat *)
+| RErrBadCred         (* credentials.ErrBadCredentialFormat *)
+| RErrPutDisabled.    (* credentials.ErrPlaintextPutDisabled *)
 
 Inductive op :=
 | Get (a : str)
@@ -232,6 +233,20 @@ Section Model.
     | o :: h' => let '(st', r) := step st o in (r, st_file st') :: run_obs st' h'
     end.
 
+  (* FileStore.Put/Get/Delete with the DisablePut switch (checked before the
+     credential format) *)
+  Definition fs_step (disable_put : bool) (st : state) (o : op) : state * result :=
+    match o with
+    | Put _ _ => if disable_put then (st, RErrPutDisabled) else step st o
+    | _ => step st o
+    end.
+
+  Fixpoint fs_run (disable_put : bool) (st : state) (h : list op) : state :=
+    match h with
+    | [] => st
+    | o :: h' => fs_run disable_put (fst (fs_step disable_put st o)) h'
+    end.
+
   (* does the operation write the file? *)
   Definition saves (st : state) (o : op) : bool :=
     match o with
@@ -269,6 +284,26 @@ Section Model.
         end
     end.
 End Model.
+
+(* ---------- the in-memory Store (memory_store.go): a map address -> credential;
+   Put accepts everything, the FileStore's colon rule is applied by the caller
+   of this reference ([mem_step] refuses like the FileStore so that the two can be
+   compared operation by operation) ---------- *)
+Definition mem_step (m : list (str * cred)) (o : op) : list (str * cred) * result :=
+  match o with
+  | Get a => (m, RCred (match lookup a m with Some c => c | None => empty_cred end))
+  | Put a c => if contains colon (c_user c) then (m, RErrBadCred) else (set a c m, ROk)
+  | Delete a => (del a m, ROk)
+  end.
+
+Fixpoint mem_results (m : list (str * cred)) (h : list op) : list result :=
+  match h with
+  | [] => []
+  | o :: h' => snd (mem_step m o) :: mem_results (fst (mem_step m o)) h'
+  end.
+
+Definition op_addr (o : op) : str :=
+  match o with Get a | Put a _ | Delete a => a end.
 
 (* ---------- history: Load before the fix "a config file holding JSON null no
    longer makes Put panic".  json.Decode of the document `null` left
